@@ -12,6 +12,7 @@
 -/
 import Vita.C18.Bridge
 import Vita.C18.GenOps
+import Vita.C18.Users
 
 set_option linter.unusedSimpArgs false
 set_option linter.unusedVariables false
@@ -336,6 +337,142 @@ theorem mmGe_trans (x y z : MM α) (h1 : SameDim x.fitness y.fitness) (h2 : Same
 
 end
 
+/-! ### users of the order (`GenUsers.lean`: the call sites found in the library by the AST matchers)
+
+  Each use is well defined for NaN-free values: what the standard library requires of a comparison
+  (`std::map<fitness_t, …>` in `distribution`, `std::less`, and any algorithm of <algorithm> a
+  future change instantiates over fitness values) and what the hand-written selection / replacement
+  loops rely on. -/
+
+section
+variable {α : Type} (K : Ctx α)
+
+/-- `<` is a strict weak ordering (the *Compare* requirements of std::sort / std::max_element /
+    std::map): irreflexive, asymmetric, transitive, and incomparability is transitive (stated as
+    negative transitivity: `a < c` implies `a < b` or `b < c`) -/
+theorem lt_strict_weak :
+    (∀ a, opLt K a a = false) ∧ (∀ a b, opLt K a b = true → opLt K b a = false) ∧
+    (∀ a b c, opLt K a b = true → opLt K b c = true → opLt K a c = true) ∧
+    (∀ a b c, opLt K a c = true → opLt K a b = true ∨ opLt K b c = true) := by
+  refine ⟨lt_irrefl K, lt_asymm K, lt_trans K, ?_⟩
+  intro a b c h
+  rw [lt_is_lex] at h
+  rcases lexCmp_lt_cases K.key a b c (by simpa using h) with h' | h'
+  · left; rw [lt_is_lex, h']; rfl
+  · right; rw [lt_is_lex, h']; rfl
+
+/-- the equivalence a `std::map<fitness_t, …>` / `std::sort` sees (neither `a < b` nor `b < a`) is `==` -/
+theorem incomp_is_eq (a b : List α) : (!opLt K a b && !opLt K b a) = opEq K a b := by
+  rw [lt_is_lex, lt_is_lex, eq_is_lex, lexCmp_swap K.key a b]; cases lexCmp K.key a b <;> rfl
+
+/-- `>` (the comparison of the descending insertion sort and of every "better than" test) is a strict
+    weak ordering too -/
+theorem gt_strict_weak :
+    (∀ a, opGt K a a = false) ∧ (∀ a b, opGt K a b = true → opGt K b a = false) ∧
+    (∀ a b c, opGt K a b = true → opGt K b c = true → opGt K a c = true) ∧
+    (∀ a b c, opGt K a c = true → opGt K a b = true ∨ opGt K b c = true) := by
+  have L := lt_strict_weak K
+  refine ⟨fun a => by rw [gt_iff_lt_swap]; exact L.1 a,
+    fun a b h => by rw [gt_iff_lt_swap] at h ⊢; exact L.2.1 b a h, gt_trans K, ?_⟩
+  intro a b c h
+  rw [gt_iff_lt_swap] at h
+  rw [gt_iff_lt_swap K a b, gt_iff_lt_swap K b c]
+  exact (L.2.2.2 c b a h).symm
+
+/-- `>=` is total: of two values one is at least the other (`this->eva_(incoming) >= f_worst`) -/
+theorem ge_total (a b : List α) : opGe K a b = true ∨ opGe K b a = true := by
+  rw [ge_is_lex, ge_is_lex, lexCmp_swap K.key a b]; cases lexCmp K.key a b <;> simp
+
+/-- best-so-far update `if (f > best) best = f` (replacement strategies, brood recombination,
+    `search_stats::update`, `distribution::add`'s maximum): over any sequence of candidates the kept
+    value is one of them and none is better -/
+theorem keep_best_is_max (x : List α) (xs : List (List α)) :
+    keepBest (opGt K) x xs ∈ x :: xs ∧ ∀ y ∈ x :: xs, opGt K y (keepBest (opGt K) x xs) = false :=
+  keepBest_max (opGt K) (gt_strict_weak K).2.1 (gt_strict_weak K).2.2.2 xs x
+
+/-- one update never makes the best worse, and the candidate is not better than the result -/
+theorem best_update_ge (best f : List α) :
+    opGe K (keepBest (opGt K) best [f]) best = true ∧ opGe K (keepBest (opGt K) best [f]) f = true := by
+  simp only [keepBest, List.foldl_cons, List.foldl_nil]
+  cases h : opGt K f best with
+  | true =>
+    simp only [if_true]
+    refine ⟨?_, ?_⟩
+    · rw [ge_iff_gt_or_eq, h]; rfl
+    · rw [ge_is_lex, lexCmp_refl]; rfl
+  | false =>
+    simp only [Bool.false_eq_true, if_false]
+    refine ⟨by rw [ge_is_lex, lexCmp_refl]; rfl, ?_⟩
+    rw [ge_iff_not_lt, ← gt_iff_lt_swap, h]; rfl
+
+/-- tracking a worst value with `<` (kill tournament of ALPS, `distribution::add`'s minimum): the kept
+    value is a member that no member is below -/
+theorem loser_is_min (x : List α) (xs : List (List α)) :
+    keepBest (opLt K) x xs ∈ x :: xs ∧ ∀ y ∈ x :: xs, opLt K y (keepBest (opLt K) x xs) = false :=
+  keepBest_max (opLt K) (lt_strict_weak K).2.1 (lt_strict_weak K).2.2.2 xs x
+
+/-- `id_worst = fit_parent[0] < fit_parent[1] ? 0 : 1` picks a parent that is `<=` the other one -/
+theorem worst_of_two (f0 f1 : List α) :
+    (opLt K f0 f1 = true → opLe K f0 f1 = true) ∧ (opLt K f0 f1 = false → opLe K f1 f0 = true) := by
+  rw [lt_is_lex, le_is_lex, le_is_lex, lexCmp_swap K.key f0 f1]
+  cases lexCmp K.key f0 f1 <;> simp
+
+/-- the insertion loop of `selection::tournament::run` keeps `ret` sorted in descending order
+    (its debug assertion `eva(ret[i-1]) >= eva(ret[i])`) … -/
+theorem tour_insert_sorted (x : List α) (ret : List (List α)) (h : DescSorted (opGe K) ret) :
+    DescSorted (opGe K) (tourInsert (opGt K) x ret) := by
+  unfold DescSorted tourInsert
+  rw [List.reverse_reverse]
+  refine insAsc_chain (opGt K) (opGe K) ?_ ?_ x _ h
+  · intro a b hab; rw [ge_iff_gt_or_eq, hab]; rfl
+  · intro a b hab; rw [ge_iff_not_lt, ← gt_iff_lt_swap, hab]; rfl
+
+/-- … and only inserts: the result is a permutation of the old vector plus the new element -/
+theorem tour_insert_perm (x : List α) (ret : List (List α)) :
+    (tourInsert (opGt K) x ret).Perm (x :: ret) := by
+  unfold tourInsert
+  refine (List.reverse_perm _).trans ((insAsc_perm (opGt K) x ret.reverse).trans ?_)
+  exact List.Perm.cons x (List.reverse_perm ret)
+
+/-- the comparison of `std::pair<bool, fitness_t>` used by `selection::alps::run` is a strict weak
+    ordering -/
+theorem pairLt_strict_weak :
+    (∀ p, pairLt (opLt K) p p = false) ∧
+    (∀ p q, pairLt (opLt K) p q = true → pairLt (opLt K) q p = false) ∧
+    (∀ p q r, pairLt (opLt K) p q = true → pairLt (opLt K) q r = true → pairLt (opLt K) p r = true) ∧
+    (∀ p q r, pairLt (opLt K) p r = true → pairLt (opLt K) p q = true ∨ pairLt (opLt K) q r = true) := by
+  have L := lt_strict_weak K
+  refine ⟨?_, ?_, ?_, ?_⟩
+  · intro ⟨pb, pf⟩; cases pb <;> simp [pairLt, L.1]
+  · intro ⟨pb, pf⟩ ⟨qb, qf⟩
+    cases pb <;> cases qb <;> simp only [pairLt] <;> simp
+    all_goals exact L.2.1 pf qf
+  · intro ⟨pb, pf⟩ ⟨qb, qf⟩ ⟨rb, rf⟩
+    cases pb <;> cases qb <;> cases rb <;> simp only [pairLt] <;> simp
+    all_goals exact L.2.2.1 pf qf rf
+  · intro ⟨pb, pf⟩ ⟨qb, qf⟩ ⟨rb, rf⟩
+    cases pb <;> cases qb <;> cases rb <;> simp only [pairLt] <;> simp
+    all_goals exact L.2.2.2 pf qf rf
+
+/-- `selection::alps::run` keeps `age_fit0 >= age_fit1` (its assertion; `>=` on pairs is `!(<)`) -/
+theorem alps_top2_inv (s : (Bool × List α) × (Bool × List α)) (t : Bool × List α)
+    (h : pairLt (opLt K) s.1 s.2 = false) :
+    pairLt (opLt K) (top2Step (opLt K) s t).1 (top2Step (opLt K) s t).2 = false := by
+  unfold top2Step
+  cases h1 : pairLt (opLt K) s.1 t with
+  | true => simp only [if_true]; exact (pairLt_strict_weak K).2.1 _ _ h1
+  | false =>
+    simp only [Bool.false_eq_true, if_false]
+    cases h2 : pairLt (opLt K) s.2 t with
+    | true => simp only [if_true]; exact h1
+    | false => simp only [Bool.false_eq_true, if_false]; exact h
+
+end
+
+/-- every call site of a comparison on fitness values found in the library (`Gen.users`, extracted
+    from the AST) uses an operator on a kind of operand whose well-definedness is proved above -/
+theorem users_covered : ∀ u ∈ Gen.users, justifiedUse u = true := by decide
+
 /-! ### the bit-pattern instance -/
 
 /-- both zeros have key 0 -/
@@ -512,5 +649,13 @@ example : Gen.opAdd intCtx.cmp intCtx.ops [1, 2] [10] = none := by decide
 example : Gen.almostEqual intCtx.cmp intCtx.ops [1, 2] [1] 0 = none := by decide
 example : Gen.combine intCtx.cmp intCtx.ops [1] [2, 3] = some [1, 2, 3] := by decide
 example : Gen.showFit intCtx.cmp intCtx.ops (fun x => toString x) [1, 2] = some "(1, 2)" := by decide
+-- users: a descending vector stays descending, the ALPS pair order prefers "not aged"
+example : DescSorted (opGe intCtx) [[3], [2], [2]] ∧ tourInsert (opGt intCtx) [2] [[3], [2], [1]] = [[3], [2], [2], [1]] := by
+  refine ⟨?_, by decide⟩
+  show AscChain (opGe intCtx) [[2], [2], [3]]
+  exact ⟨by decide, by decide, trivial⟩
+example : pairLt (opLt intCtx) (false, [9]) (true, [1]) = true ∧ pairLt (opLt intCtx) (true, [1]) (true, [2]) = true := by
+  decide
+example : Gen.users ≠ [] := by decide
 
 end Vita.C18
